@@ -47,6 +47,7 @@ import DimodModel.Npy
     zipwrite <base> <entries>                                      -> hex of the archive bytes (local entries, central directory, end record)
     zipread <bytes> <inflate oracle>                               -> none | members   (zipOpen over the byte-level directory/member reader, real CRC-32)
     zipreadall <bytes> <inflate oracle>                            -> prefix lengths at which the archive opens | -
+    ziptiledall <start> <bytes> <inflate oracle>                   -> prefix lengths at which the tiled opener (_open_archive + all members) succeeds | -
     npyhdr <descr> <shape>                                         -> hex of the .npy header (magic, version, length, padded dictionary)
     npyparse <bytes>                                               -> none | descr:shape:dataHex
     npyparseall <bytes>                                            -> prefix lengths at which the member parses, as first..last ranges | -
@@ -524,6 +525,10 @@ def handle (toks : List String) : String :=
   | ["npyparseall", bytes] =>
     let b := unhex bytes
     rangesOf ((List.range (b.length + 1)).filter fun j => (parseNpy [] (b.take j)).isSome)
+  | ["ziptiledall", start, bytes, orc] =>
+    let b := unhex bytes
+    let inf := parseInflate orc
+    rangesOf ((List.range (b.length + 1)).filter fun j => (openTiled crc32 inf start.toNat! (b.take j)).isSome)
   | _ => "bad-op"
 
 def main : IO Unit := do
